@@ -37,6 +37,8 @@ CHECKS = {
              text="For every (burn_in, thin) with a non-empty result, the traces and accepts returned equal the slice [burn_in::thin] of the un-thinned run leaf by leaf on the same outcome variables; the un-thinned run equals the hand-iterated kernel state by state with accepts[i] the kernel's decision; acceptance_rate == mean(accepts); n_steps counts retained states; with n_chains=2 every leaf has a leading chain axis, each lane equals the single-chain IR on its own (distinct) outcome variables.", ref="3 C18"),
  "C19": dict(technique="Jaxpr-to-SMT encoding of state(f) vs f and vs a recorder twin (z3 equality queries for all inputs); CrossHair on the namespace-dict helpers",
              text="For 12 generated programs (repeated names, nested namespaces, scans incl. nested and with namespaces around/inside, vmap/modular_vmap, scan inside vmap, multi-value tag_state, leaf-mode save) state(f) returns f's result and a dictionary with exactly the reference names/nesting and leaf-wise equal values for all inputs, also under jit and seed.", ref="3 C19"),
+ "C13": dict(technique="Jaxpr-to-SMT encoding of every wrapper's logpdf and seeded sampler vs the documented TFP object (z3 equality queries), hand-written closed forms, finite-support normalisation sums in log-domain mode",
+             text="For all 24 exported distributions and user-wrapped tfp_distribution/distribution instances: logpdf equals the log density of the documented TFP object built with the documented parameter NAMES (argument wiring: probs vs logits, rate vs scale, alpha vs beta; swapped-parameter twins must be refuted), with the documented shape/dtype; closed forms for normal, exponential, uniform, flip, gamma, categorical, geometric (counts failures), binomial; sum of exp(logpmf) == 1 in the solver for flip, bernoulli, categorical K<=3, binomial n<=3; the seeded sampler (scalar, sample_shape, modular_vmap) equals the documented TFP sampler on the site's own sub-key for the 15 families without a rejection loop, shape/dtype/key provenance for the other 9.", ref="3 C13"),
 }
 NA = {}
 
